@@ -110,6 +110,16 @@ theorem splitCmd_noSpace (a rest : Bytes) (h : ∀ b ∈ a, b ≠ 32) : splitCmd
     have ht : ∀ b ∈ t, b ≠ 32 := fun b hb => h b (by simp [hb])
     simp [splitCmd, hc, ih ht]
 
+theorem utf8Valid_ascii (a : Bytes) (h : ∀ b ∈ a, b < 0x80) : utf8Valid a = true := by
+  induction a with
+  | nil => unfold utf8Valid; rfl
+  | cons c t ih =>
+    have hc : c < 0x80 := h c (by simp)
+    have ht : ∀ b ∈ t, b < 0x80 := fun b hb => h b (by simp [hb])
+    unfold utf8Valid
+    simp only [hc, if_true]
+    exact ih ht
+
 theorem splitCmd_noSpace_all (a : Bytes) (h : ∀ b ∈ a, b ≠ 32) : splitCmd a = (a, []) := by
   induction a with
   | nil => simp [splitCmd]
